@@ -6,8 +6,10 @@ import Cellml.C06.Spec2
 namespace Model.CV
 open Model
 
-theorem lookup_isSome_iff_hasKey {α β : Type} [DecidableEq α] (k : α) (l : List (α × β)) :
-    (l.lookup k).isSome = hasKey k l := by
+section
+variable {α β : Type} [BEq α] [LawfulBEq α] [DecidableEq α]
+
+theorem lookup_isSome_iff_hasKey (k : α) (l : List (α × β)) : (l.lookup k).isSome = hasKey k l := by
   induction l with
   | nil => rfl
   | cons p l ih =>
@@ -18,13 +20,28 @@ theorem lookup_isSome_iff_hasKey {α β : Type} [DecidableEq α] (k : α) (l : L
       have h2 : ¬ k' = k := fun h => hk h.symm
       simp only [List.lookup_cons, h1, ih, hasKey, List.any_cons, h2, decide_false, Bool.false_or]
 
-theorem lookup_none_of_hasKey_false {α β : Type} [DecidableEq α] (k : α) (l : List (α × β)) (h : hasKey k l = false) :
-    l.lookup k = none := by
+theorem lookup_none_of_hasKey_false (k : α) (l : List (α × β)) (h : hasKey k l = false) : l.lookup k = none := by
   have := lookup_isSome_iff_hasKey k l
   rw [h] at this
   cases hl : l.lookup k with
   | none => rfl
   | some w => rw [hl] at this; cases this
+
+theorem hasKey_false_of_lookup_none (k : α) (l : List (α × β)) (h : l.lookup k = none) : hasKey k l = false := by
+  have := lookup_isSome_iff_hasKey k l
+  rw [h] at this; exact this.symm
+
+theorem mem_of_lookup' (l : List (α × β)) (k : α) (v : β) (h : l.lookup k = some v) : (k, v) ∈ l := by
+  induction l with
+  | nil => simp at h
+  | cons p l ih =>
+    obtain ⟨k', v'⟩ := p
+    by_cases hk : k = k'
+    · subst hk; simp at h; subst h; exact List.mem_cons_self ..
+    · have : (k == k') = false := by simpa using hk
+      simp only [List.lookup_cons, this] at h
+      exact List.mem_cons_of_mem _ (ih h)
+end
 
 /-- the left-hand side is not one of the replaced derivatives -/
 def NoLhs (rep : Rep) (e : CEqn) : Prop := ∀ x t, e.lhs = .deriv x t → hasKey (x, t) rep = false
@@ -32,7 +49,9 @@ def NoLhs (rep : Rep) (e : CEqn) : Prop := ∀ x t, e.lhs = .deriv x t → hasKe
 theorem substLhs_of_noLhs {rep : Rep} {e : CEqn} (h : NoLhs rep e) : substLhs rep e.lhs = e.lhs := by
   cases hl : e.lhs with
   | var v => rfl
-  | deriv x t => simp only [substLhs, lookup_none_of_hasKey_false _ _ (h x t hl)]
+  | deriv x t =>
+    have := lookup_none_of_hasKey_false _ _ (h x t hl)
+    simp only [substLhs, this]
 
 theorem keyKind_substEq {rep : Rep} {e : CEqn} (h : NoLhs rep e) : keyKind (substEq rep e) = keyKind e := by
   unfold keyKind substEq; simp only [substLhs_of_noLhs h]
@@ -49,8 +68,7 @@ theorem derivs_subst (rep : Rep) (e : X) : ∀ p ∈ (e.subst rep).derivs, hasKe
     | none =>
       rw [hl] at hp; simp only [X.derivs, List.mem_cons, List.not_mem_nil, or_false] at hp
       rw [hp]
-      have := lookup_isSome_iff_hasKey (x, t) rep
-      rw [hl] at this; exact this.symm
+      exact hasKey_false_of_lookup_none _ _ hl
   | lit q u => simp [X.subst, X.derivs]
   | add a b iha ihb | sub a b iha ihb | mul a b iha ihb | div a b iha ihb | fn2 f a b iha ihb =>
     intro p hp
@@ -75,7 +93,7 @@ theorem vars_subst (rep : Rep) (e : X) : ∀ i ∈ (e.subst rep).vars, i ∈ e.v
     cases hl : rep.lookup (x, t) with
     | some w =>
       rw [hl] at hi; simp only [X.vars, List.mem_cons, List.not_mem_nil, or_false] at hi
-      exact Or.inr ⟨((x, t), w), mem_of_lookup _ _ _ hl, hi.symm⟩
+      exact Or.inr ⟨((x, t), w), mem_of_lookup' _ _ _ hl, hi.symm⟩
     | none => rw [hl] at hi; exact Or.inl hi
   | lit q u => intro i hi; exact Or.inl hi
   | add a b iha ihb | sub a b iha ihb | mul a b iha ihb | div a b iha ihb | fn2 f a b iha ihb =>
@@ -134,5 +152,98 @@ theorem replaceStep_spec {st : CState} {rep : Rep} (h : Inv0 st) (hc : Cross st.
   refine ⟨by rw [a1, r1], by rw [a2, r2], a4, ?_⟩
   rw [a1, r1]
   exact cross_replace hc e (substEq rep e) (by simp only [substEq, substLhs_of_noLhs hn]) he
+
+theorem noLhs_substEq {rep : Rep} {e : CEqn} (hn : NoLhs rep e) : NoLhs rep (substEq rep e) := by
+  intro x t hl
+  have : (substEq rep e).lhs = e.lhs := by simp only [substEq, substLhs_of_noLhs hn]
+  exact hn x t (this ▸ hl)
+
+/-- `_replace_references_to_derivatives` over (the rest of) the copied list: the invariant is kept, no variable is
+    added, and the resulting equations are the untouched ones that mention no replaced derivative plus the rewritten
+    forms of those that do -/
+theorem replace_fold (rep : Rep) : ∀ (L : List CEqn) (st : CState), Inv0 st → Cross st.equations → L.Nodup →
+    (∀ e ∈ L, e ∈ st.equations) → (∀ e ∈ st.equations, NoLhs rep e) → (∀ p ∈ rep, p.2 < st.vars.length) →
+    Inv0 (L.foldl (replaceStep rep) st) ∧ Cross (L.foldl (replaceStep rep) st).equations ∧
+    (L.foldl (replaceStep rep) st).vars = st.vars ∧
+    (∀ e ∈ (L.foldl (replaceStep rep) st).equations, NoLhs rep e) ∧
+    (∀ e' ∈ (L.foldl (replaceStep rep) st).equations,
+        (e' ∈ st.equations ∧ (e' ∈ L → mentions rep e' = false)) ∨
+        ∃ e ∈ L, e ∈ st.equations ∧ mentions rep e = true ∧ e' = substEq rep e) ∧
+    (∀ e ∈ st.equations,
+        (e ∈ (L.foldl (replaceStep rep) st).equations ∧ (e ∈ L → mentions rep e = false)) ∨
+        (e ∈ L ∧ mentions rep e = true ∧ substEq rep e ∈ (L.foldl (replaceStep rep) st).equations)) := by
+  intro L
+  induction L with
+  | nil =>
+    intro st h hc _ _ hn _
+    exact ⟨h, hc, rfl, hn, fun e' he' => Or.inl ⟨he', fun hh => by cases hh⟩,
+           fun e he => Or.inl ⟨he, fun hh => by cases hh⟩⟩
+  | cons e L ih =>
+    intro st h hc hnd hsub hn hr
+    have hndL : L.Nodup := (List.nodup_cons.mp hnd).2
+    have heL : e ∉ L := (List.nodup_cons.mp hnd).1
+    have he : e ∈ st.equations := hsub e (List.mem_cons_self ..)
+    simp only [List.foldl_cons]
+    cases hm : mentions rep e with
+    | false =>
+      have hst : replaceStep rep st e = st := by unfold replaceStep; rw [hm]; rfl
+      rw [hst]
+      obtain ⟨a, b, c, d, i1, i2⟩ := ih st h hc hndL (fun e2 h2 => hsub e2 (List.mem_cons_of_mem _ h2)) hn hr
+      refine ⟨a, b, c, d, ?_, ?_⟩
+      · intro e' he'
+        rcases i1 e' he' with ⟨h1, h2⟩ | ⟨e2, h2, h3, h4, h5⟩
+        · refine Or.inl ⟨h1, fun hin => ?_⟩
+          rcases List.mem_cons.mp hin with hin | hin
+          · rw [hin]; exact hm
+          · exact h2 hin
+        · exact Or.inr ⟨e2, List.mem_cons_of_mem _ h2, h3, h4, h5⟩
+      · intro e0 he0
+        rcases i2 e0 he0 with ⟨h1, h2⟩ | ⟨h1, h2, h3⟩
+        · refine Or.inl ⟨h1, fun hin => ?_⟩
+          rcases List.mem_cons.mp hin with hin | hin
+          · rw [hin]; exact hm
+          · exact h2 hin
+        · exact Or.inr ⟨List.mem_cons_of_mem _ h1, h2, h3⟩
+    | true =>
+      obtain ⟨r1, r2, r3, r4⟩ := replaceStep_spec h hc e he hm (hn e he) hr
+      have hsub1 : ∀ e2 ∈ L, e2 ∈ (replaceStep rep st e).equations := by
+        intro e2 h2; rw [r1]; apply List.mem_append_left
+        have hne : e2 ≠ e := fun hh => heL (hh ▸ h2)
+        exact (List.mem_erase_of_ne hne).mpr (hsub e2 (List.mem_cons_of_mem _ h2))
+      have hn1 : ∀ e2 ∈ (replaceStep rep st e).equations, NoLhs rep e2 := by
+        rw [r1]; intro e2 h2
+        rcases List.mem_append.mp h2 with h2 | h2
+        · exact hn e2 (List.mem_of_mem_erase h2)
+        · simp only [List.mem_cons, List.not_mem_nil, or_false] at h2
+          rw [h2]; exact noLhs_substEq (hn e he)
+      obtain ⟨a, b, c, d, i1, i2⟩ := ih (replaceStep rep st e) r3 r4 hndL hsub1 hn1 (by rw [r2]; exact hr)
+      refine ⟨a, b, c.trans r2, d, ?_, ?_⟩
+      · intro e' he'
+        rcases i1 e' he' with ⟨h1, h2⟩ | ⟨e2, h2, h3, h4, h5⟩
+        · rw [r1] at h1
+          rcases List.mem_append.mp h1 with h1 | h1
+          · have hne := (h.nodup.mem_erase_iff.mp h1).1
+            refine Or.inl ⟨List.mem_of_mem_erase h1, fun hin => ?_⟩
+            rcases List.mem_cons.mp hin with hin | hin
+            · exact absurd hin hne
+            · exact h2 hin
+          · simp only [List.mem_cons, List.not_mem_nil, or_false] at h1
+            exact Or.inr ⟨e, List.mem_cons_self .., he, hm, h1⟩
+        · exact Or.inr ⟨e2, List.mem_cons_of_mem _ h2, hsub e2 (List.mem_cons_of_mem _ h2), h4, h5⟩
+      · intro e0 he0
+        by_cases hee : e0 = e
+        · subst hee
+          have hin : substEq rep e0 ∈ (replaceStep rep st e0).equations := by rw [r1]; simp
+          rcases i2 _ hin with ⟨h1, _⟩ | ⟨_, h2, _⟩
+          · exact Or.inr ⟨List.mem_cons_self .., hm, h1⟩
+          · rw [not_mentions_substEq] at h2; cases h2
+        · have hin : e0 ∈ (replaceStep rep st e).equations := by
+            rw [r1]; exact List.mem_append_left _ ((List.mem_erase_of_ne hee).mpr he0)
+          rcases i2 e0 hin with ⟨h1, h2⟩ | ⟨h1, h2, h3⟩
+          · refine Or.inl ⟨h1, fun hin' => ?_⟩
+            rcases List.mem_cons.mp hin' with hin' | hin'
+            · exact absurd hin' hee
+            · exact h2 hin'
+          · exact Or.inr ⟨List.mem_cons_of_mem _ h1, h2, h3⟩
 
 end Model.CV
